@@ -21,15 +21,18 @@ def lookupD (m : List (String × Res4)) (n : String) : Res4 :=
 
 def stateOfJson (j : Json) : State Res4 :=
   let nodes := jarr (jget j "nodes")
-  let caps := nodes.map (fun n => (jstr (jget n "name"), resOfJson (jget n "cap")))
-  let usages := nodes.map (fun n => (jstr (jget n "name"), resOfJson (jget n "usage")))
+  -- plugin records of nodes the store does not know are listed separately ("pcap")
+  let recs := nodes ++ jarr (jget j "pcap")
+  let caps := recs.map (fun n => (jstr (jget n "name"), resOfJson (jget n "cap")))
+  let usages := recs.map (fun n => (jstr (jget n "name"), resOfJson (jget n "usage")))
   { nodes := nodes.map (fun n => jstr (jget n "name")),
     cap := lookupD caps, usage := lookupD usages,
     wls := (jarr (jget j "wls")).map (fun w => ⟨jnat (jget w "id"), jstr (jget w "node"), resOfJson (jget w "res")⟩),
     cts := (jarr (jget j "cts")).map (fun c => ⟨jnat (jget c "id"), jstr (jget c "node"), jbool (jget c "running")⟩),
     markers := (jarr (jget j "markers")).map (fun m => (jstr (jget m "node"), jnat (jget m "count"))),
     wal := (jarr (jget j "wal")).map (fun e => (jstr (jget e "event"), jstr (jget e "node"), 0)),
-    next := jnat (jget j "next") }
+    next := jnat (jget j "next"),
+    pnodes := (jarr (jget j "pnodes")).map jstr }
 
 def groupsOfJson (j : Json) : List (String × List Nat) :=
   (jarr j).map (fun g => (jstr (jget g "node"), (jarr (jget g "ids")).map jnat))
@@ -50,6 +53,8 @@ def opOfJson (op : String) (a : Json) : Option (Op Res4) :=
   | "setnode" =>
     let c := jget a "newCap"
     some (.setNode (jstr (jget a "node")) (if c.isNull then none else some (resOfJson c)))
+  | "addnode" => some (.addNode (jstr (jget a "node")) (resOfJson (jget a "cap")))
+  | "removenode" => some (.removeNode (jstr (jget a "node")))
   | _ => none
 
 def faultOfJson (j : Json) : Option Addr :=
@@ -72,7 +77,9 @@ def stateDiff (names : List String) (a b : State Res4) : List String :=
   (if sortStr (a.wls.map wlKey) == sortStr (b.wls.map wlKey) then [] else ["workloads"]) ++
   (if sortStr (a.cts.map ctKey) == sortStr (b.cts.map ctKey) then [] else ["containers"]) ++
   (if sortStr (a.markers.map (fun m => s!"{m.1}/{m.2}")) == sortStr (b.markers.map (fun m => s!"{m.1}/{m.2}")) then [] else ["markers"]) ++
-  (if sortStr (a.wal.map (fun e => s!"{e.1}/{e.2.1}")) == sortStr (b.wal.map (fun e => s!"{e.1}/{e.2.1}")) then [] else ["wal"])
+  (if sortStr (a.wal.map (fun e => s!"{e.1}/{e.2.1}")) == sortStr (b.wal.map (fun e => s!"{e.1}/{e.2.1}")) then [] else ["wal"]) ++
+  (if sortStr a.nodes == sortStr b.nodes then [] else ["nodes"]) ++
+  (if sortStr a.pnodes == sortStr b.pnodes then [] else ["pnodes"])
 
 def withinCapB (names : List String) (s : State Res4) : Bool :=
   names.all (fun n => Res4.le (s.usage n) (s.cap n))
@@ -96,7 +103,8 @@ def handle (j : Json) : Json :=
   | none => Json.mkObj [("id", id), ("agree", false), ("error", "unknown op"), ("spec", Json.arr #[]), ("class", "bad")]
   | some op =>
     let (out, ms) := run (runOp op) flt pre
-    let names := (namesOf pre ++ namesOf post).eraseDups
+    let names := (namesOf pre ++ namesOf post ++ pre.pnodes ++ post.pnodes ++
+      (match op with | .addNode n _ => [n] | .removeNode n => [n] | _ => [])).eraseDups
     let mtrace := sortStr (ms.tr.map (fun e => s!"{e.1}@{e.2.1}:{e.2.2}"))
     let mret := match out with | .ok _ => "ok" | .fail => "fail"
     let diffs := stateDiff names ms.st post ++
@@ -123,6 +131,9 @@ def handle (j : Json) : Json :=
           (if post.wls.any (fun w => w.id == wid) && post.cts.any (fun c => c.id == wid && c.running) then []
            else [s!"C11:replace-old-lost:{fkind}"])
         else []
+      | .addNode _ _ | .removeNode _ =>
+        if failedAll && !(sameAbsB names pre post && sortStr pre.pnodes == sortStr post.pnodes)
+        then [s!"C11:effect-after-failure:{opName}:{fkind}"] else []
       | _ => if failedAll && !sameAbsB names pre post then [s!"C11:effect-after-failure:{opName}:{fkind}"] else []
     let c12 :=
       match op with
